@@ -87,7 +87,7 @@ var harnesses = map[string]*Harness{
 			zz + "pvmasm/asm.go":           "harness/pvmasm/asm.go",
 		},
 		Instrument: []InstrSpec{
-			{File: "internal/accumulation/accumulation.go", Opt: instrument.Options{Yield: true, MapOrder: true, MinLock: 4, MinGo: 3, MinMap: 6}},
+			{File: "internal/accumulation/accumulation.go", Opt: instrument.Options{Yield: true, MapOrder: true, GoBodyYield: true, MinLock: 4, MinGo: 3, MinMap: 6}},
 			{File: "internal/accumulation/deferred_transfers.go", Opt: instrument.Options{MapOrder: true}},
 			{File: "internal/accumulation/extrinsic_preimage.go", Opt: instrument.Options{MapOrder: true}},
 			{File: "PVM/accumulate_invocation.go", Opt: instrument.Options{MapOrder: true, MinMap: 3}},
